@@ -8,7 +8,7 @@ CHECKS = {}
 NOT_APPLICABLE = {}
 
 
-# families / histories added while the checks were tried against 142 seeded changes (DESIGN.md 10.5, 10.5b, 10.5c)
+# families / histories added while the checks were tried against 158 seeded changes (DESIGN.md 10.5, 10.5b, 10.5c, 10.5d)
 ADDED = {
     "C01": " Added: a third of the enumerated complexes are built with half of their sides declared as edges beforehand, shuffled and reversed.",
     "C02": " Added: a construction after a first one that raised on the same data object; history 'extend' (the built mesh wrapped again, one vertex and one face appended behind the existing records, built again); the ENTRY set of the hard-edge flag, which is what the library's own consumers iterate over.",
@@ -367,7 +367,7 @@ def main():
                  "exit 2. Known findings: /verif/known_findings.json (18 open, each with a replay file under /verif/findings; 42 fixed by 'fix:' commits). "
                  "Sub-clauses that are NOT decided by the specifications: C19 the share of samples per edge / face (statistical); C18 closed surfaces beyond "
                  "modulus / quantum / sum (randomly started eigen-solver) and the OSQP-based variants (OSQP does not run in this sandbox); exact numeric oracles "
-                 "exist on integer-lattice inputs only (DESIGN.md 8). 142 seeded changes with their outcomes are under /verif/seeded (bin/seeded, bin/selftest); "
+                 "exist on integer-lattice inputs only (DESIGN.md 8). 158 seeded changes with their outcomes are under /verif/seeded (bin/seeded, bin/selftest); "
                  "./bin/check X01 quick runs a specification of behaviour outside the listed properties (DESIGN.md 10.8).",
     }
     with open(os.path.join(HERE, "MANIFEST.json"), "w") as f:
